@@ -341,7 +341,7 @@ def tail_spec(name, tabs):
         lam = math.exp(-0.5 * r * r) / math.sqrt(2.0 * math.pi) / (0.5 * math.erfc(r / math.sqrt(2.0)))
         return r, ts, q, lam - r, 1.0 + r * lam - lam * lam
     r = tabs["exp_zig_x_tail_start"]
-    ts = [r, r + 1.0, r + 2.0, r + 4.0, 14.0]
+    ts = [r, r + 1.0, r + 2.0, r + 4.0, 14.0, 2.0 * r, 3.0 * r]     # beyond 2r / 3r: two / three passes through the tail layer
     return r, ts, (lambda t: math.exp(-t)), 1.0, 1.0
 
 
@@ -490,6 +490,14 @@ def run(chk):
             msg, _ = judge_script(c_exe, lines, attrs.get("exact") == "1")
             if msg:
                 failures.append(("corr", "corpus/rngdist/%s: %s" % (name, msg), text))
+            elif "expect_above" in attrs:
+                # the scenario is meant to exercise a rare path: say so if it no longer does (tables or generator changed)
+                _rc, co, _ce = vlib.run_driver(c_exe, "\n".join(lines) + "\n", args=["corr"], timeout=600)
+                big = [w for l in co.splitlines() if l.startswith("stdexp") for w in l.split()[1:]
+                       if bits_to_float(w) > float(attrs["expect_above"])]
+                dist["corpus-rare-path-draws"] += len(big)
+                if not big:
+                    chk.notes.append("corpus/rngdist/%s no longer reaches a variate above %s: search new seeds (see the file)" % (name, attrs["expect_above"]))
         elif kind == "stat":
             sup = attrs.get("support", "-inf,inf,-").split(",")
             w = lines[0].split()
@@ -660,7 +668,13 @@ def run(chk):
             chk.violation("a build-time generated ziggurat table is wrong (the samples cannot follow the stated distribution): " + what, replay, True)
         else:
             # a disagreement between model and library is a broken tie unless it also shows an invalid value
-            chk.violation("T-corr: " + what, replay, "returned the index" in what or "is not exact" in what)
+            # `stdexp` / `geom` are compared with the HAND model Rng/Zig.lean, i.e. with the specification of the slow path (not with
+            # anything regenerated): when in addition a theorem about the regenerated statements of that path no longer checks,
+            # the disagreement at this seed and draw is a failing input, not merely a broken tie
+            spec_path = ("`stdexp`" in what or "`geom`" in what) and tgen_ok and not proved
+            if spec_path:
+                what += " — the library leaves the specified slow path of the exponential ziggurat at this seed / draw, and Props/C16.lean does not check against the regenerated statements of that path"
+            chk.violation("T-corr: " + what, replay, "returned the index" in what or "is not exact" in what or spec_path)
     if not tgen_ok and not chk.violations:
         chk.violation("T-gen broken: tools/gen_rngdist.py cannot translate the current source: %s; the library passes the support scan and "
                       "the statistical tier" % getattr(chk, "tgen_error", ""),
